@@ -144,6 +144,8 @@ package nsqd
 //@   props C16
 //@   nochan
 //@   requires t != nil && t.nsqd != nil && t.channelMap != nil
+//   "this expects the caller to handle locking": the channel map is written here, so the topic's write lock is a precondition
+//@   requires[caller-holds-the-topic-lock] holdsw(t, "RWMutex")
 //@   requires[values] forall k string :: {t.channelMap[k]} has(t.channelMap, k) ==> lChanUsable(t.channelMap[k])
 //@   requires[keyed-by-name] forall k string :: {t.channelMap[k]} has(t.channelMap, k) ==> t.channelMap[k].name == k
 //@   ensures[keyed-by-name] forall k string :: {t.channelMap[k]} has(t.channelMap, k) ==> t.channelMap[k].name == k
